@@ -72,6 +72,31 @@ func (e *Exec) call(fr *Frame, st *State, ins ssa.Instruction, cc *ssa.CallCommo
 		// in specifications an unknown pure function is an uninterpreted function of its arguments
 		return e.ufCall(st, callee, args, rtyp)
 	}
+	if len(callee.Blocks) > 0 {
+		// body available but not inlined (loops / size): havoc only what it may write
+		if mw := e.eng.mayWrite(callee); !mw.all {
+			staticArg := false
+			for _, a := range args {
+				if a.T == nil {
+					staticArg = true
+				}
+			}
+			if !staticArg {
+				e.note("callee without contract abstracted by its write set: " + name)
+				for n, srt := range mw.heap {
+					if e.frameOn && !e.frameOff {
+						e.wholeArrayFrame(st, n)
+					}
+					e.heapSet(st, n, e.c.Fresh(n+"@call", srt))
+				}
+				e.bumpAlloc(st)
+				if t, ok := rtyp.(*types.Tuple); ok && t.Len() == 0 {
+					return Val{}
+				}
+				return e.havocVal(st, rtyp, "ret")
+			}
+		}
+	}
 	return e.unknownCall(fr, st, ins, name, rtyp, args)
 }
 
@@ -370,7 +395,9 @@ func (e *Exec) evalPure(fn *ssa.Function, args, oldArgs []Val, bindings []Val, s
 		os.reach = e.c.True()
 		ofr := e.newFrame(fn)
 		ofr.bindings = bindings
+		e.noPrune++
 		end, _ := e.run(ofr, oldArgs, os)
+		e.noPrune--
 		fr.oldVals = ofr.vals
 		fr.oldEnd = end
 		fr.allocs = ofr.allocs
@@ -492,6 +519,13 @@ func (e *Exec) callByContract(fr *Frame, st *State, ins ssa.Instruction, sp *Fun
 			e.heapSet(st, l.arr, c.Store(cur, l.ref, c.Fresh(l.arr+"@call", es)))
 		}
 		e.bumpAlloc(st)
+	} else if len(sp.ModPkgs) > 0 {
+		for _, pk := range sp.ModPkgs {
+			if e.frameOn && !e.frameOff {
+				e.wholeArrayFrame(st, "pkg "+pk)
+			}
+			e.havocPkg(st, pk)
+		}
 	} else if sp.Assume && !sp.Havoc {
 		// assumed pure
 	} else {
